@@ -10,7 +10,7 @@ NOT_APPLICABLE["C03"] = ("relation between an arbitrary dynamic call tree and an
                          "evolution of handler collections and accumulator forks; no sound static abstraction in reach bounds embeddings")
 NOT_APPLICABLE["C07"] = ("quantifies over call trees and runtime data flow through Total accumulator forks; its only structural clause "
                          "(exit hook on every way out) is decided under C06 rule R06.1")
-SOURCE_COMMITS = ["746fd1a fix: undo the instrumentation counts when the new variant cannot be installed", "798314f fix: untool the functions of a selector that autotool ends up refusing", "f8603ba fix: roll back the tooling of earlier selectors when a later one is refused", "e29e1a9 fix: mark the cached instrumented variants as helper functions"]
+SOURCE_COMMITS = ["746fd1a fix: undo the instrumentation counts when the new variant cannot be installed", "798314f fix: untool the functions of a selector that autotool ends up refusing", "f8603ba fix: roll back the tooling of earlier selectors when a later one is refused", "e29e1a9 fix: mark the cached instrumented variants as helper functions", "ceee686 fix: match the receiver of a bound-method selector by identity"]
 
 claim("C12", "P", "AST normal-form comparison tables + wrapper-guard agreement (syntactic dataflow)",
       "Decides structural clauses only: each stock comparison predicate is the single comparison its name states (holds for all "
@@ -46,3 +46,10 @@ claim("C14", "P", "dominance of the registry update over every __code__ store (C
       "on their separators and use the same lookup. Histories of activate/resolve and codefind itself are not decided.",
       "Trusted: codefind.registry semantics as read from the installed source; _Conformer.__conform__ (hot patching) is listed out of scope, not judged.",
       "DESIGN.md section 6, C14")
+
+claim("C13", "P", "taint analysis from the bound method's receiver to hash / equality sinks (intern-table key, ==/in comparisons), plus resolver shape rules",
+      "Decides for every receiver kind at once: the receiver object of an obj.meth selector is only ever compared by identity (never hashed, never ==-compared), the "
+      "constrained parameter name comes from the resolved function's signature, only bound methods get the constraint, and resolution unwraps __wrapped__/property/dotted paths. "
+      "Per-call delivery across populations of instances is a runtime fact and is not decided.",
+      "Trusted: Python semantics of dict membership (hash + ==) and of default __eq__/__hash__ (identity).",
+      "DESIGN.md section 6, C13")
